@@ -119,7 +119,7 @@ def table():
         summ += f"| {rd} | {r['n']} | {r['first']} ({r['first_input']}) | {r['now']} ({r['now_input']}) |\n"
     tot = {k: sum(r[k] for r in rounds.values()) for k in ("n", "first", "first_input", "now", "now_input")}
     summ += f"| all | {tot['n']} | {tot['first']} ({tot['first_input']}) | {tot['now']} ({tot['now_input']}) |\n"
-    text = "## 11. Seeded changes and which check catches them\n\n" + "Rounds r1..r7 were written by fresh sub-agents (property text + scratch worktree only); from r5 on the agent was also given one-line summaries of every earlier idea for that property and told to find different ones. After each round the misses were analysed, generators widened or oracles added, and at the end every seed of every round was re-run against the final machinery (`tools/finalpass.sh`).\n\n" + summ + "\n" + ""
+    text = "## 11. Seeded changes and which check catches them\n\n" + "Rounds r1..r9 were written by fresh sub-agents (property text + scratch worktree only); from r5 on the agent was also given one-line summaries of every earlier idea for that property and told to find different ones. After each round the misses were analysed, generators widened or oracles added, and at the end every seed of every round was re-run against the final machinery (`tools/finalpass.sh`).\n\n" + summ + "\n" + ""
     text += "Written by `tools/collect_seeds.py` from `/verif/seeded/*/meta.json`. Every change was written by a fresh sub-agent that saw only the property text and a scratch worktree; it compiles, passes the repository's unedited test suite, and comes with a demonstration that fails with it and passes without it (all re-confirmed by `tools/seedtest.py`). `quick`/`thorough` = the tier of `./check <id>` that reported it.\n\n| seed | change | caught by |\n|---|---|---|\n" + "\n".join(rows) + "\n"
     p = "/verif/DESIGN.md"
     s = open(p).read()
